@@ -374,6 +374,8 @@ class RtrEngine(object):
         status, val = rigcall(w, (c.scp.TimeoutError,
                                   c.mcmod.SpiNNakerRouterError), fn, *args)
         self.inject_fail = False
+        if status != "ok":
+            c.settle()
         if status == "ok":
             for xy, es in tables.items():
                 self.check_loaded(m.chips[xy], before[xy], es, app_id, label)
@@ -452,6 +454,7 @@ class RtrEngine(object):
         status, val = rigcall(w, (c.scp.TimeoutError,),
                               c.mc.get_routing_table_entries, xy[0], xy[1])
         if status == "exc":
+            c.settle()
             w.probe("op_timeout")
             if c.clean():
                 w.violate("L", "read-back timed out with no fault active",
@@ -497,6 +500,7 @@ class RtrEngine(object):
                               c.mc.clear_routing_table_entries, xy[0], xy[1],
                               app)
         if status == "exc":
+            c.settle()
             w.ops[-1] += " -> TimeoutError"
             return
         for i in range(N_RTR):
